@@ -139,7 +139,7 @@ func convOpAt(c runCase, name string, path []string) string {
 	return ""
 }
 
-// namedNillable: "pkg.Name" of a declared type whose underlying type is a pointer, slice or map.
+// namedNillable: "pkg.Name" of a declared type whose underlying type is a pointer or a slice.
 func namedNillable(c runCase, name string) bool {
 	i := strings.LastIndex(name, ".")
 	if i < 0 || c.Conv == nil || c.Conv.Prog == nil {
@@ -151,8 +151,10 @@ func namedNillable(c runCase, name string) bool {
 		}
 		for _, d := range pk.Types {
 			if d.Name == name[i+1:] && d.U != nil {
+				// named maps are guarded like unnamed ones (always checked for nil); the finding
+				// is about named slices and pointers, which reach the target through a helper call
 				u := c.Conv.Prog.Underlying(d.U)
-				return u.K == spec.KPtr || u.K == spec.KSlice || u.K == spec.KMap
+				return u.K == spec.KPtr || u.K == spec.KSlice
 			}
 		}
 	}
